@@ -66,7 +66,9 @@ type Engine struct {
 	sizes            types.Sizes
 	needsInit        map[*ssa.Global]string // globals of non-initialised packages that have initialisers
 
+	litmus     bool // the current entry is an engine litmus harness: races inside harness code are reported
 	harnessFnM sync.Map
+	fnInfos    sync.Map
 
 	LoadTime time.Duration
 
@@ -366,6 +368,7 @@ func (w *workList) done() {
 // Explore runs the harness entry over all paths.
 func (e *Engine) Explore(entry *ssa.Function) *RunResult {
 	t0 := time.Now()
+	e.litmus = strings.HasPrefix(entry.Name(), "VerifLitmus")
 	res := &RunResult{Harness: entry.Name(), Status: map[string]int{}, Reach: map[string]int{},
 		Funcs: map[string]int{}, Stubs: map[string]int{}, Outcomes: map[string]int{}}
 	e.mu.Lock()
@@ -435,8 +438,8 @@ func (e *Engine) Explore(entry *ssa.Function) *RunResult {
 					}
 					res.Outcomes[key]++
 				}
-				for f, n := range ps.fnSeen {
-					res.Funcs[f] = n
+				for fi := range ps.fnSeenFi {
+					res.Funcs[fi.name] = fi.nblocks
 				}
 				for f, n := range ps.stubs {
 					res.Stubs[f] += n
